@@ -44,7 +44,7 @@ func init() {
 			return 40
 		}})
 	ck.Rule += " Part inflight: the simulated peer answers a request (reply or result through HandleSpineMesssage) or looks a notification up (DatagramForMsgCounter) from inside the connection writer, i.e. before the stack's send call has returned; " +
-		"40 rounds per case over 6 request identities (3 functions x 2 destinations) with the modes answered-inside / answered-after-return / left unanswered, judged against the reference set of unanswered identities (non-trivial: at least one identity was requested again after being answered inside the write and at least one duplicate was withheld)."
+		"40 rounds per case over 6 request identities (3 functions x 2 destinations) with the modes answered-inside / answered-after-return / left unanswered (the device element of the answer's source address: as announced in half of the answers, omitted or never announced in the others), judged against the reference set of unanswered identities (non-trivial: at least one identity was requested again after being answered inside the write and at least one duplicate was withheld)."
 	ck.Assumptions = append(ck.Assumptions, "part inflight: the writer waits for the helper goroutine that delivers the answer at most 15 s; expiry (the inbound path would have to wait for the sending call) is inconclusive, not a violation")
 }
 
@@ -55,6 +55,8 @@ type c13EagerWriter struct {
 	mode         atomic.Int32
 	notifyLookup atomic.Bool
 	expired      atomic.Bool
+	// srcDev: the device element of the answer's addressSource (c13Form.srcDev: 0 as announced, 1 omitted, 2 never announced)
+	srcDev atomic.Int32
 
 	mu       sync.Mutex
 	answered map[uint64]string // counter -> how it was answered inside the write
@@ -85,10 +87,11 @@ func (e *c13EagerWriter) WriteShipMessageWithPayload(m []byte) {
 		go func() {
 			defer close(done)
 			ref := *h.MsgCounter
+			from := c13WithDev(h.AddressDestination, int(e.srcDev.Load()), "")
 			if mode == 1 {
-				p.Send(model.CmdClassifierTypeReply, h.AddressDestination, h.AddressSource, false, &ref, d.Datagram.Payload.Cmd[0])
+				p.Send(model.CmdClassifierTypeReply, from, h.AddressSource, false, &ref, d.Datagram.Payload.Cmd[0])
 			} else {
-				p.Send(model.CmdClassifierTypeResult, h.AddressDestination, h.AddressSource, false, &ref,
+				p.Send(model.CmdClassifierTypeResult, from, h.AddressSource, false, &ref,
 					model.CmdType{ResultData: &model.ResultDataType{ErrorNumber: util.Ptr(model.ErrorNumberType(1)), Description: util.Ptr(model.DescriptionType("no"))}})
 			}
 			e.mu.Lock()
@@ -164,9 +167,16 @@ func c13Inflight(c *rig.Ctx) {
 		}
 		return
 	}
+	srcDevs := map[int]int{}
+	drawSrcDev := func() int {
+		// the device element of the answer's source address: as announced (half of the answers), omitted, never announced
+		return []int{0, 0, 1, 2}[r.Intn(4)]
+	}
 	answer := func(id string, o c13Out) {
 		ref := o.mc
-		p.Send(model.CmdClassifierTypeReply, dests[o.di].Address(), cli.Address(), false, &ref, o.cmd)
+		sd := drawSrcDev()
+		srcDevs[sd]++
+		p.Send(model.CmdClassifierTypeReply, c13WithDev(dests[o.di].Address(), sd, ""), cli.Address(), false, &ref, o.cmd)
 		delete(unanswered, id)
 	}
 	rounds := 40
@@ -219,8 +229,10 @@ func c13Inflight(c *rig.Ctx) {
 		switch mode {
 		case "inside-reply":
 			ew.mode.Store(1)
+			ew.srcDev.Store(int32(drawSrcDev()))
 		case "inside-result":
 			ew.mode.Store(2)
+			ew.srcDev.Store(int32(drawSrcDev()))
 		}
 		mc, err := cli.RequestRemoteData(fn, nil, nil, dests[di])
 		ew.mode.Store(0)
@@ -271,6 +283,7 @@ func c13Inflight(c *rig.Ctx) {
 				return
 			}
 			answeredInside[id] = true
+			srcDevs[int(ew.srcDev.Load())]++
 		case "after":
 			answer(id, c13Out{*mc, di, written[0].Payload.Cmd[0]})
 			answeredInside[id] = false
@@ -287,6 +300,9 @@ func c13Inflight(c *rig.Ctx) {
 	c.Count("duplicates_withheld", int64(withheld))
 	c.Count("identities_requested_again_after_answer_inside_the_write", int64(reRequestedAfterInside))
 	c.Count("notifications_looked_up_inside_the_write", int64(notifies))
+	for sd, n := range srcDevs {
+		c.Count(fmt.Sprintf("answers_by_source_device(0=announced,1=omitted,2=never-announced):%d", sd), int64(n))
+	}
 	c.Shape(fmt.Sprintf("inflight/re=%v/withheld=%v/notify=%v", reRequestedAfterInside > 0, withheld > 0, notifies > 0))
 	c.NonTrivial(reRequestedAfterInside > 0 && withheld > 0)
 	if len(trace) > 14 {
